@@ -145,7 +145,19 @@ def build_arr(rec):
     return a.reshape(shape)
 
 
-def build_md_value(rec):
+def build_md_value(rec, share=None):
+    """`share` (a dict) makes equal container recipes ONE Python object: the same dict / list / tuple / array object is then
+    reachable by several paths inside one Metadata (values are compared by content; objects may be shared)"""
+    if share is not None and rec["t"] in ("dict", "list", "tuple", "arr"):
+        import json as _json
+        key = _json.dumps(rec, sort_keys=True)
+        if key not in share:
+            share[key] = _build_md_value(rec, share)
+        return share[key]
+    return _build_md_value(rec, share)
+
+
+def _build_md_value(rec, share=None):
     t = rec["t"]
     if t == "none":
         return None
@@ -162,11 +174,11 @@ def build_md_value(rec):
     if t == "arr":
         return build_arr(rec)
     if t == "tuple":
-        return tuple(build_md_value(x) for x in rec["xs"])
+        return tuple(build_md_value(x, share) for x in rec["xs"])
     if t == "list":
-        return [build_md_value(x) for x in rec["xs"]]
+        return [build_md_value(x, share) for x in rec["xs"]]
     if t == "dict":
-        return {k: build_md_value(v) for k, v in rec["items"]}
+        return {k: build_md_value(v, share) for k, v in rec["items"]}
     if t == "py":
         # an edge value written as a Python expression over numpy (our own recipes only)
         return eval(rec["expr"], {"np": np, "__builtins__": {"set": set, "frozenset": frozenset, "range": range, "bytes": bytes,
@@ -331,6 +343,18 @@ def _gen_tree(r, rootname, maxdepth, maxkids, odd, md, classes, budget, avoid_pr
                 break
             budget[0] -= 1
             out.append(node(depth, used, anc))
+            # a SIBLING whose name is derived from this one: the writer's scratch name for it, or a name that it is a
+            # proper prefix of / that is a proper prefix of it (string arithmetic on paths must respect the '/' boundary)
+            if r.random() < 0.12 and budget[0] > 0:
+                base = out[-1]["name"]
+                cand = r.choice(["_tmp_" + base, "_tmp_" + base, base + "2", base + "_fit", base[:-1] if len(base) > 1 else base + "x"])
+                if cand not in used and cand.strip() == cand and cand not in ("", ".", "..") and "/" not in cand and not (avoid_prefix and any(cand.startswith(p) for p in avoid_prefix)):
+                    budget[0] -= 1
+                    used.add(cand)
+                    sib = node(depth, used, anc)
+                    used.discard(sib["name"])
+                    sib["name"] = cand
+                    out.append(sib)
         return out
 
     root = {"name": rootname or ("R" + str(r.randrange(3))), "cls": "Root", "pay": {}, "md": [], "kids": []}
